@@ -258,12 +258,12 @@ func run(c *rig.Ctx) {
 
 	// (2) a side never depends on a channel not routed to it
 	npair := c.N(64, 1000)
-	c.Part("paired", npair, func(i int64, r *rig.Rng) {
+	c.Part("paired", npair+npair/4, func(i int64, r *rig.Rng) {
 		total := int64(400000)
 		qc, qs := r.Intn(4), r.Intn(2)
 		base := schedule(r, total, qc, qs)
-		if i%4 == 3 {
-			// everything as loud as it gets: all four channels at full volume on the other side
+		if i >= npair {
+			// (the additional cases) everything as loud as it gets: all four channels at full volume on the other side
 			// (the quiet channel among them), master volume 7 on both sides, the observed side
 			// carrying the other three
 			other, mine := uint8(0xf0), uint8(0x0f) // side 0 is the right one (low nibble of NR51)
